@@ -14,3 +14,5 @@ open Martian.Props.C09
 #print axioms settings_applied_eq_receivers
 #print axioms initial_window_applied_once_with_last
 #print axioms settings_history_eq_receivers
+#print axioms facts_settings_read_modes
+#print axioms facts_window_update_creates_buffer
